@@ -51,6 +51,8 @@ func (s *SetWithTTL[T]) Remove(es ...T) {
 
 // Contains returns true if the SetWithTTL contains `e`.
 // We don't have to clean up first because the test checks the TTL.
+// An item is present up to and including its expiration instant, which is
+// exactly when cleanup (and therefore Members and Length) still retains it.
 func (s *SetWithTTL[T]) Contains(e T) bool {
 	s.mut.RLock()
 	item, ok := s.Items[e]
@@ -58,7 +60,7 @@ func (s *SetWithTTL[T]) Contains(e T) bool {
 	if !ok {
 		return false
 	}
-	return item.After(s.Clock.Now())
+	return !item.Before(s.Clock.Now())
 }
 
 func (s *SetWithTTL[T]) cleanup() int {
